@@ -471,6 +471,13 @@ class Twin:
             post["hist"] = [[proj_entry(lab, arr, self.unit) for lab, arr in lw.history] for lw in self.lws]
             post["report"] = [lex_report(lw.report, lw.name, self.unit) for lw in self.lws]
             self.held.append([lw.volumes for lw in self.lws])
+            # ... and a caller may do with such an array what it likes (here: overwrite a fresh one completely)
+            for lw in self.lws:
+                try:
+                    scratch = lw.volumes
+                    scratch[...] = -12345.0
+                except Exception:  # noqa (a read-only array is a legitimate answer as well)
+                    pass
         return post, cs
 
     def final_event(self):
